@@ -81,6 +81,8 @@ type Intent struct {
 	Repeat     int       `json:"rep,omitempty"`
 	Replay     int       `json:"replay,omitempty"` // kind "replay": index into the history of included txs
 	WrongChain bool      `json:"wrongChain,omitempty"`
+	ToRaw      string    `json:"toRaw,omitempty"` // receiver field bytes used verbatim (any length), signed as they are
+	EmptyChain bool      `json:"emptyChain,omitempty"` // signed for the empty chain id
 	IDHex      *string   `json:"idHex,omitempty"` // unstake/vote: explicit payload hash bytes (hostile lengths)
 }
 
